@@ -82,6 +82,36 @@ UNITS = {
              'find': 'categories[i] |= range.categories;', 'replace': 'categories[i] = range.categories;'},
         ],
     },
+    'v_wordid': {
+        'tpl': 'units/v_wordid.rs.tpl', 'rlimit': 30,
+        'mutants': [
+            {'name': 'dictionary number shifted by 27', 'file': 'sudachi/src/dic/word_id.rs',
+             'find': 'let dic_part = ((dic & 0xf) as u32) << 28;', 'replace': 'let dic_part = ((dic & 0xf) as u32) << 27;'},
+            {'name': 'word mask one bit short', 'file': 'sudachi/src/dic/word_id.rs',
+             'find': 'const WORD_MASK: u32 = 0x0fff_ffff;', 'replace': 'const WORD_MASK: u32 = 0x07ff_ffff;'},
+            {'name': 'oov test on the wrong nibble', 'file': 'sudachi/src/dic/word_id.rs',
+             'find': 'self.dic() == 0xf\n', 'replace': 'self.dic() >= 0xe\n'},
+        ],
+    },
+    'v_node': {
+        'tpl': 'units/v_node.rs.tpl', 'rlimit': 60,
+        'mutants': [
+            {'name': 'last unit detected one early', 'file': 'sudachi/src/analysis/node.rs',
+             'find': 'let (char_end, byte_end) = if idx + 1 == self.splits.len() {', 'replace': 'let (char_end, byte_end) = if idx + 2 >= self.splits.len() {'},
+            {'name': 'iterator does not advance its byte offset', 'file': 'sudachi/src/analysis/node.rs',
+             'find': 'self.byte_offset = byte_end;', 'replace': 'self.byte_offset = byte_start;'},
+            {'name': 'merged token ends at the first merged token', 'file': 'sudachi/src/analysis/node.rs', 'count': 2,
+             'find': '        path[end - 1].end_bytes,\n', 'replace': '        path[begin].end_bytes,\n'},
+            {'name': 'merge drops one token too few', 'file': 'sudachi/src/analysis/node.rs', 'count': 2,
+             'find': 'path.drain(begin + 1..end);', 'replace': 'path.drain(begin + 1..end - 1);'},
+            {'name': 'merged char range starts at the second token', 'file': 'sudachi/src/analysis/node.rs', 'count': 2,
+             'find': '        path[begin].begin() as u16,\n', 'replace': '        path[begin + 1].begin() as u16,\n'},
+            {'name': 'tokens with two units are not split', 'file': 'sudachi/src/analysis/stateless_tokenizer.rs',
+             'find': 'if split_len <= 1 {', 'replace': 'if split_len <= 2 {'},
+            {'name': 'split uses B units for mode A', 'file': 'sudachi/src/analysis/node.rs',
+             'find': 'Mode::A => &self.word_info.a_unit_split(),', 'replace': 'Mode::A => &self.word_info.b_unit_split(),'},
+        ],
+    },
 }
 
 NOT_APPLICABLE = {
@@ -91,6 +121,13 @@ for _i in range(1, 21):
     NOT_APPLICABLE.setdefault('C%02d' % _i, 'not yet under contract in this revision of /verif (see DESIGN.md build order)')
 
 PROPS = {
+    'C09': {
+        'level_text': 'Verus proves on the real NodeSplitIterator::next / ResultNode::split / num_splits / split_path: in mode C the path is returned unchanged; otherwise the result is the input path with every token declaring two or more units replaced in place by sub-tokens whose word ids are exactly the declared units in order and whose byte and code-point ranges chain from the parent start to the parent end (predicate is_expansion), tokens declaring fewer units are unchanged - hence C boundaries are a subset of A/B boundaries',
+        'level_note': 'hypothesis units_fit = C09\'s "declared units concatenate to the key" (intermediate ends stay inside the parent); assumed: LexiconSet::get_word_info_subset succeeds and is a pure function of (id, subset); InputBuffer::ch_idx contract; Vec::extend(iterator) = repeated next() (written out and verified as extend_from_split); MorphemeList::split_into / Python split not yet under contract',
+        'verus': ['v_wordid', 'v_node'],
+        'kani': [],
+        'assumptions': ['units_fit (dictionary split units concatenate to the word key)', 'get_word_info_subset total on split references (valid dictionary)'],
+    },
     'C17': {
         'level_text': 'Verus proves for the real CharacterCategory::compile and get_category_types, for every list of definition ranges and every u32 code point: the reported class set equals the union of the classes of all ranges containing the code point, or DEFAULT when none does (postcondition `forall c: spec_get(c).bits == expected(ranges, c)` + lookup == spec_get), independent of order, overlap and adjacency',
         'level_note': 'assumed: collect_boundaries (BTreeSet) returns the sorted, duplicate-free list of all range endpoints; <[u32]>::binary_search contract; bitflags ops are u32 bit ops (R16); ranges have begin < end (checked by the reader, which itself - text/hex parsing in read_character_definition - is not under contract)',
